@@ -84,7 +84,7 @@ def ensure_coq(files=MODEL_FILES, project='_CoqProject.pg', makefile='Makefile.p
 # ------------------------------------------------------------------ harness
 def batches(tier):
     if tier == 'thorough':
-        return [('mixed', 9000, 70), ('cache', 6000, 60), ('recycle', 9000, 70)]
+        return [('mixed', 14000, 90), ('cache', 10000, 70), ('recycle', 14000, 90)]
     return [('mixed', 900, 45), ('cache', 600, 40), ('recycle', 900, 45)]
 
 
